@@ -17,6 +17,7 @@ var c16Hoistables = []string{
 	"func helper(a int) int {\n\treturn a*K - M\n}\n",
 	"type U struct {\n\tt *T\n}\n",
 	"func (u *U) sum() int {\n\treturn u.t.get() + M\n}\n",
+	"func up(s string) string {\n\treturn fmt.Sprint(strings.Repeat(s, 2))\n}\n",
 }
 
 var c16OrderedItems = []string{
@@ -36,7 +37,7 @@ const c16Fixed = `func note(k int) int {
 func Main(a int, b int) int {
 	t := mk(a)
 	u := &U{t: t}
-	fmt.Println(t.get(), helper(b), u.sum(), g1, g2, g3)
+	fmt.Println(t.get(), helper(b), u.sum(), g1, g2, g3, up("ab"))
 	return t.get() + u.sum()
 }
 `
@@ -57,9 +58,13 @@ func genC16Prog(id int, rng *rand.Rand) *Prog {
 		ordered bool
 	}
 	perFile := make([][]item, nfiles)
+	usesStrings := make([]bool, nfiles)
 	for _, h := range perm {
 		f := rng.Intn(nfiles)
 		perFile[f] = append(perFile[f], item{c16Hoistables[h] + "\n", false})
+		if strings.Contains(c16Hoistables[h], "strings.") {
+			usesStrings[f], usesFmt[f] = true, true
+		}
 	}
 	f := 0
 	for _, o := range c16OrderedItems {
@@ -90,7 +95,12 @@ func genC16Prog(id int, rng *rand.Rand) *Prog {
 	var desc []string
 	for i, n := range names {
 		hdr := "package main\n\n"
-		if usesFmt[i] {
+		switch {
+		case usesFmt[i] && usesStrings[i]:
+			hdr += "import (\n\t\"fmt\"\n\t\"strings\"\n)\n\n" // a group whose first entry other files import too
+		case usesFmt[i] && id%3 == 0:
+			hdr += "import (\n\t\"fmt\"\n)\n\n"
+		case usesFmt[i]:
 			hdr += "import \"fmt\"\n\n"
 		}
 		files["main/"+n] = hdr + bodies[i].String()
@@ -157,6 +167,6 @@ func checkC16(tier string, seed int64) int {
 	eagg.Into(c, "layouts_")
 	c.Cov("layouts_paths_compared", st.compared)
 	c.Assumption(fmt.Sprintf("treeSort lemma: every list of 0..%d top-level nodes over 8 node kinds (import, type, const, method, function, init, var, call); sort.SliceStable is modelled as a stable insertion sort calling the real less closure", nodes))
-	c.Assumption(fmt.Sprintf("layouts: %d seeded (permutation of 6 hoistable declarations — struct types, methods and functions referring to each other, to constants and to types defined later, partition into 1–3 files) of one package — every other layout as the top package, the others as a package imported by main — loaded with the real Load from an in-memory tree and compared with Go (whose semantics are order independent); constants, var initialisers and init keep their relative source order (they are spread over the files in non-decreasing file order and interleaved with the hoistables), as the property states", nprogs))
+	c.Assumption(fmt.Sprintf("layouts: %d seeded (permutation of 7 hoistable declarations (one of them needs a second import, declared in a group) — struct types, methods and functions referring to each other, to constants and to types defined later, partition into 1–3 files) of one package — every other layout as the top package, the others as a package imported by main — loaded with the real Load from an in-memory tree and compared with Go (whose semantics are order independent); constants, var initialisers and init keep their relative source order (they are spread over the files in non-decreasing file order and interleaved with the hoistables), as the property states", nprogs))
 	return c.Finish(false)
 }
